@@ -34,7 +34,7 @@ From FB.Spec Require Import Prog.
 From FB.Model Require Import Types Monad CreatedFiles SimpleOps Builder Persist Build Run Frame.
 From FB.Spec Require Import Ref Oracle Faithful.
 From FB.Model Require Import Core CoreOracle CoreCache.
-From FB.Proofs Require Import ReplayLaws BuildFileLaws FrameLaws CleanLaws CoreLaws2 CoreLaws5 CoreLaws6 CoreLaws7 CoreNextDefs CoreNextThm ViewDefs ViewInit ViewXDefs ViewXRun ViewR2 ViewR3 ViewK3 ViewK4 ViewK8 HashMemoInv HashMemoRun SimA0 SimAMain.
+From FB.Proofs Require Import ReplayLaws BuildFileLaws FrameLaws CleanLaws CoreLaws2 CoreLaws5 CoreLaws6 CoreLaws7 CoreNextDefs CoreNextThm ViewDefs ViewInit ViewXDefs ViewXRun ViewR2 ViewR3 ViewK3 ViewK4 ViewK8 HashMemoInv HashMemoRun SimA0 SimAMain SimC0 SimC12 SimC13.
 (* T1g: Model/BuildDirs.v and Model/CreatedFiles.v are equal to the translation of build_dirs.py / created_files.py
    (Gen/BookGen.v, regenerated on every run); a change of those sources that the model does not follow breaks this import *)
 From FB.Proofs Require BookGenLaws.
@@ -83,9 +83,8 @@ Proof. exact chain_from_empty. Qed.
    conditions on the program: creatable shallow targets, no target below its own function's target (NoNest), no
    target an ancestor of / below a previous output (TargetsClear, TargetsApart), queries on creatable paths without
    get_size of directories (QueriesOk), arguments with floats in normal form (WfArgs).  For arbitrary previous
-   caches the same theorem (SimAMain.build_agree_thm) is relative to four statements about cache hits whose
-   substance is proved in SimB*.v (replay_corr: is_op_cached = kreplay; file_hit_sim3, sub_hit_sim3); gluing the two
-   developments is in progress (SimC*.v). *)
+   caches see C01_mechanism_transparent below (SimC*.v glue the run-level simulation of SimA*.v with the replay
+   correspondence is_op_cached = kreplay of SimB*.v). *)
 Theorem C01_mechanism_first_build_agrees_with_core : forall w cachefile old nm svers root w1 w2 r l,
   norec old -> fs_wf (w_fs w) -> old_ok old cachefile -> WfCache old -> old_keys_ok old -> w_faults w = [] ->
   path_ok (dirname cachefile) = true -> isdir (w_fs w) cachefile = false -> (maxlen (w_fs w) < walk_fuel)%nat ->
@@ -99,6 +98,33 @@ Theorem C01_mechanism_first_build_agrees_with_core : forall w cachefile old nm s
   (exists L0, vis_log (w_log w2) = rev (cr_log cr) ++ L0) /\
   trel (c_built (w_new w2)) (view_fs w2) (cr_tree cr).
 Proof. exact build_agree_norec. Qed.
+
+(* CACHE TRANSPARENCY FOR THE MECHANISM MODEL (Proofs/SimC13.v mech_C01 = SimC12.build_agree_okc composed with
+   build_transparent): the user code run by the mechanism model - proved equal to the translation of the Python
+   source - has the outcome of the from-scratch reference build of Spec/Ref.v, a visible log that is a subsequence of
+   the reference log, and a view equal to the reference tree up to mtime/inode; for every previous cache of the class
+   okc (decidable: okcb) - faithful, well formed, METADATA comparisons and reads only, no recorded get_size, no nested
+   record that raised, recorded mtimes not after the start of the build - and every program satisfying the side
+   conditions.  Up to the return of the root function (the commit phase: CommitDirs*.v; joining the two is stated in
+   SimC13.mech_commit_statement, not proved).  That the class is re-established by every build is proved for its
+   static part (SimC14/15) and checked by computation on a 4-build history (SimCEx.v). *)
+Theorem C01_mechanism_transparent : forall (kp : kappa) (F : ftable) w cachefile old nm svers root w1 w2 r l,
+  Obeys F root -> Respects F ->
+  kp_init kp (w_fs w) -> kp_new kp (w_clock w) ->
+  cache_wf old -> faithful_cache kp F old svers -> okc (w_clock w) old ->
+  old_ok old cachefile -> WfCache old -> old_keys_ok old ->
+  fs_wf (w_fs w) -> w_faults w = [] ->
+  path_ok (dirname cachefile) = true -> isdir (w_fs w) cachefile = false -> (maxlen (w_fs w) < walk_fuel)%nat ->
+  vdir (Build.start_world w cachefile old nm svers) (dirname cachefile) = true ->
+  AllTargets tgtP root -> NoNest [] root -> QueriesOk root -> WfArgs root -> CmpMeta root ->
+  TargetsClear old root -> TargetsApart old root ->
+  make_dirs (dirname cachefile) (Build.start_world w cachefile old nm svers) = (w1, inl []) ->
+  run root None [] (set_log (LInvoke "<root>"%string None PNone PNone :: w_log w1) w1) = (w2, (r, l)) ->
+  let rr := ref_build (w_fs w) cachefile (prev_of_cache old) (w_clock w) (w_nextid w) root in
+  r = rr_outcome rr /\
+  (exists Lb L0, vis_log (w_log w2) = rev Lb ++ L0 /\ sublog Lb (rr_log rr)) /\
+  tree_equiv (view_fs w2) (rr_tree rr).
+Proof. exact mech_C01. Qed.
 
 (* the hypotheses are satisfiable: a content oracle read off the tree, and a concrete instance
    (a previous cache, a tree on which the replay succeeds) *)
